@@ -86,9 +86,14 @@ class Encoder(object):
 
     def enc_Constant(self, n):
         if n.value is None: return NONE
-        if isinstance(n.value, tuple):
-            return UF('tuple_const_%d' % len(n.value), len(n.value))(*[const_code(x) if x is not None else NONE for x in n.value]) \
-                if n.value else const_code(())
+        if isinstance(n.value, (tuple, frozenset)):
+            # the compiler folds displays of constants into one constant: same symbol as the display it came from
+            vals = list(n.value) if isinstance(n.value, tuple) else sorted(n.value, key=repr)
+            if not vals: return const_code(())
+            if any(isinstance(x, (tuple, frozenset)) for x in vals): return const_code(n.value)
+            kind = 'tuple' if isinstance(n.value, tuple) else 'set'
+            r = UF('%s_%d' % (kind, len(vals)), len(vals))(*[const_code(x) if x is not None else NONE for x in vals])
+            return self._truthy(r) if kind == 'tuple' else r
         return const_code(n.value)
 
     def enc_BoolOp(self, n):
@@ -134,7 +139,13 @@ class Encoder(object):
         raise NotEncodable(t.__name__)
 
     def enc_Compare(self, n):
-        operands = [self.enc(n.left)] + [self.enc(c) for c in n.comparators]
+        operands = [self.enc(n.left)]
+        for op, c in zip(n.ops, n.comparators):
+            if isinstance(op, (ast.In, ast.NotIn)) and isinstance(c, ast.List):
+                c = ast.Tuple(elts=c.elts, ctx=ast.Load())      # membership in a list display = membership in the tuple the compiler builds
+            if isinstance(op, (ast.In, ast.NotIn)) and isinstance(c, ast.Set) and all(isinstance(e, ast.Constant) for e in c.elts):
+                c = ast.Constant(frozenset(e.value for e in c.elts))
+            operands.append(self.enc(c))
         parts = [self.cmp1(op, operands[i], operands[i + 1]) for i, op in enumerate(n.ops)]
         return b2i(z3.And(parts) if len(parts) > 1 else parts[0])
 
